@@ -1646,6 +1646,215 @@ def run_diagnostics(rt: Rt) -> None:
 
 
 # ======================================================================================
+# O4args : names bound by a construct are not visible while its own arguments are evaluated
+# ======================================================================================
+
+ARG_FORMS = ["call-positional", "call-keyword", "call-mixed", "call-excess", "macro-default", "with",
+             "include-kw", "include-with-as", "include-for-as", "render-kw", "render-with-as",
+             "render-for-as", "translate", "lambda-alpha"]
+
+
+class ArgGen:
+    """Constructs that bind SEVERAL names at once, with argument expressions that read names from
+    the same pool as the names being bound (swaps / permutations).  Right before each construct
+    a probe prints the argument expressions in the enclosing scope; inside the construct a probe
+    prints the bound names in the same order.  The two texts must be equal."""
+
+    def __init__(self, rng: random.Random):
+        self.r = rng
+        self.partials: dict[str, str] = {}
+        self.nid = 0
+        self.forms: dict[int, str] = {}
+        self.swaps = 0
+
+    def program(self) -> tuple[str, dict[str, str], dict[str, Any]]:
+        r = self.r
+        data = dict(GLOBALS)
+        head = ""
+        for n in POOL + ["args", "kwargs"]:
+            k = r.choice(["global", "assign", "assign", "capture"])
+            if k == "global":
+                data[n] = f"G{n.upper()}"
+            elif k == "assign":
+                head += f"{{% assign {n} = 'V{n.upper()}' %}}"
+            else:
+                head += f"{{% capture {n} %}}C{n.upper()}{{% endcapture %}}"
+        body = ""
+        for _ in range(r.randint(2, 4)):
+            c = self.construct()
+            w = r.random()
+            n = r.choice(POOL)
+            if w < 0.2:
+                c = f"{{% with {n}: 'W{n.upper()}' %}}{c}{{% endwith %}}"
+            elif w < 0.4:
+                c = f"{{% for {n} in (7..8) %}}{c}{{% endfor %}}"
+            body += c
+        return head + body, self.partials, data
+
+    def exprs(self, params: list[str], k: int | None = None) -> list[str]:
+        """One argument expression per bound name: mostly the name of a SIBLING parameter."""
+        r = self.r
+        out = []
+        for i in range(len(params) if k is None else k):
+            x = r.random()
+            others = [q for q in params if i >= len(params) or q != params[i]]
+            if x < 0.6 and others:
+                out.append(r.choice(others))
+                self.swaps += 1
+            elif x < 0.8:
+                out.append(r.choice(POOL + ["args", "kwargs"]))
+            elif x < 0.9:
+                out.append(r.choice(["gmap.x", "garr[0].k", "g1"]))
+            else:
+                out.append(r.choice(["'lit'", "7", "nil"]))
+        return out
+
+    @staticmethod
+    def probe(nid: int, side: str, exprs: list[str]) -> str:
+        return f"{PL}{nid}{side}:" + "|".join(f"{{{{ {e} }}}}" for e in exprs) + PR
+
+    def construct(self) -> str:  # noqa: PLR0912, PLR0915
+        r = self.r
+        form = r.choice(ARG_FORMS)
+        nid = self.nid
+        self.nid += 1
+        self.forms[nid] = form
+        ps = r.sample(POOL, r.choice([2, 2, 3]))
+        es = self.exprs(ps)
+        before = self.probe(nid, "b", es)
+        inside = self.probe(nid, "a", ps)
+        if form == "call-positional":
+            return (f"{{% macro am{nid} {', '.join(ps)} %}}{inside}{{% endmacro %}}{before}"
+                    f"{{% call am{nid} {', '.join(es)} %}}")
+        if form in ("call-keyword", "call-mixed"):
+            npos = 0 if form == "call-keyword" else 1
+            kw = [f"{p_}: {e}" for p_, e in zip(ps[npos:], es[npos:])]
+            r.shuffle(kw)
+            return (f"{{% macro am{nid} {', '.join(ps)} %}}{inside}{{% endmacro %}}{before}"
+                    f"{{% call am{nid} {', '.join(es[:npos] + kw)} %}}")
+        if form == "call-excess":
+            # one parameter; the surplus lands in args / kwargs (names the caller may hold too)
+            es = self.exprs(ps[:1] + ["args", "kwargs"], 4)
+            inside = self.probe(nid, "a", [ps[0], "args[0]", "args[1]", "kwargs.zk"])
+            before = self.probe(nid, "b", es)
+            return (f"{{% macro am{nid} {ps[0]} %}}{inside}{{% endmacro %}}{before}"
+                    f"{{% call am{nid} {es[0]}, {es[1]}, {es[2]}, zk: {es[3]} %}}")
+        if form == "macro-default":
+            # defaults are evaluated when the call is evaluated, in the caller's scope
+            params = ps[0] + "".join(f", {p_}: {e}" for p_, e in zip(ps[1:], es[1:]))
+            return (f"{{% macro am{nid} {params} %}}{inside}{{% endmacro %}}{before}"
+                    f"{{% call am{nid} {es[0]} %}}")
+        if form == "with":
+            args = ", ".join(f"{p_}: {e}" for p_, e in zip(ps, es))
+            return f"{before}{{% with {args} %}}{inside}{{% endwith %}}"
+        if form in ("include-kw", "render-kw"):
+            tag = form.split("-")[0]
+            name = f"ap{nid}"
+            self.partials[name] = inside
+            return before + f"{{% {tag} '{name}', " + ", ".join(f"{p_}: {e}" for p_, e in zip(ps, es)) + " %}"
+        if form in ("include-with-as", "render-with-as"):
+            tag = form.split("-")[0]
+            name = f"ap{nid}"
+            self.partials[name] = inside
+            kw = "".join(f", {p_}: {e}" for p_, e in zip(ps[1:], es[1:]))
+            return before + f"{{% {tag} '{name}' with {es[0]} as {ps[0]}{kw} %}}"
+        if form in ("include-for-as", "render-for-as"):
+            # the bound item is not compared; the keyword arguments next to it are
+            tag = form.split("-")[0]
+            name = f"ap{nid}"
+            self.partials[name] = self.probe(nid, "a", ps[1:])
+            kw = "".join(f", {p_}: {e}" for p_, e in zip(ps[1:], es[1:]))
+            return self.probe(nid, "b", es[1:]) + f"{{% {tag} '{name}' for gs as {ps[0]}{kw} %}}"
+        if form == "translate":
+            args = ", ".join(f"{p_}: {e}" for p_, e in zip(ps, es))
+            return f"{before}{{% translate {args} %}}{inside}{{% endtranslate %}}"
+        # lambda-alpha: renaming the lambda's parameters to fresh names changes nothing, also when
+        # the filtered value or a free variable of the body is named like a parameter
+        p1, p2 = ps[0], ps[1]
+        arr = r.choice([p1, p2, "garr", r.choice(POOL)])
+        # (bound with `with`, the innermost scope, so no enclosing loop or with can shadow it)
+        pre, post = ("", "") if arr == "garr" else (f"{{% with {arr}: garr %}}", "{% endwith %}")
+        free = r.choice([q for q in POOL if q not in (p1, p2)])  # (a free name must stay free)
+        flt, body = r.choice([
+            ("map", "{A}.x"), ("map", "{I}"), ("map", "{A}.k"), ("map", free),
+            ("where", "{A}.x > 1"), ("reject", "{A}.x == 1"), ("sort", "{A}.k"), ("has", "{I} == 1"),
+            ("find_index", "{A}.x == 2"), ("sum", "{A}.x"),
+        ])
+        two = flt in ("map", "has") and r.random() < 0.7
+        if "{I}" in body:
+            two = True
+
+        def lam(a_: str, i_: str) -> str:
+            params = f"({a_}, {i_})" if two else a_
+            tail = " | map: 'k' | join: ','" if flt in ("where", "reject", "sort") else (
+                " | join: ','" if flt == "map" else "")
+            return f"{{{{ {arr} | {flt}: {params} => {body.format(A=a_, I=i_)}{tail} }}}}"
+
+        self.swaps += 1
+        return (pre + f"{PL}{nid}b:" + lam("zqa", "zqi") + PR + f"{PL}{nid}a:" + lam(p1, p2) + PR + post)
+
+
+def args_check(out: str) -> tuple[int, list[tuple[int, str, str]]]:
+    """Every 'a' probe (inside the construct) equals the latest 'b' probe (before it)."""
+    latest: dict[int, str] = {}
+    bad: list[tuple[int, str, str]] = []
+    n = 0
+    for m in PROBE_RE.finditer(out):
+        nid, side, text = int(m.group(1)), m.group(2), m.group(3)
+        if side == "b":
+            latest[nid] = text
+        elif nid in latest:
+            n += 1
+            if latest[nid] != text and not any(b[0] == nid for b in bad):
+                bad.append((nid, latest[nid], text))
+    return n, bad
+
+
+def run_args(rt: Rt, seed: str, j: int, tier: str) -> None:
+    ctx = rt.ctx
+    rng = random.Random(f"{seed}:args:{j}")
+    g = ArgGen(rng)
+    src, parts, data = g.program()
+    mode = "async" if j % 2 else "sync"
+    res = frame_case(rt, "std", src, parts, data, mode, own=(j % 2 == 0))
+    if not res.ok:
+        ctx.count("o4args_render_errors")
+        ctx.note(f"O4args program {seed}:{j} raised {res.err}: {src[:240]!r}")
+        return
+    n, bad = args_check(res.out)
+    ctx.count("O4args_probe_pairs", n)
+    ctx.count("O4args_programs")
+    ctx.count("O4args_sibling_name_arguments", g.swaps)
+    for f in g.forms.values():
+        ctx.seen("o4args_forms", f)
+    if n:
+        ctx.nt("o4args", src, sorted(parts.items()), sorted(data), mode)
+    if j % 151 == 0:
+        ctx.sample({"oracle": "O4args", "source": src, "partials": parts, "output": res.out, "mode": mode})
+    for nid, before, inside in bad[:2]:
+        form = g.forms.get(nid, "?")
+        key = f"O4args:{form}:argument-sees-sibling-binding"
+
+        def still(s: str, p: dict[str, str], nid: int = nid) -> bool:
+            r2 = rt.run(rt.env("std", p), s, data, mode)
+            return r2.ok and any(b[0] == nid for b in args_check(r2.out)[1])
+
+        small, sparts = src, parts
+        if rt.key_counts.get(key, 0) < 2:
+            rt.key_counts[key] = rt.key_counts.get(key, 0) + 1
+            small, sparts = shrink_case(src, parts, still)
+        wit = {"oracle": "O4args", "key": key, "source": small, "partials": sparts, "data": data, "env": "std",
+               "mode": mode, "construct_id": nid, "minimised_from": src if small != src else None}
+        Rt.trim_data(wit)
+        ctx.violation(
+            key,
+            f"{form}: the argument expressions evaluated in the enclosing scope print {before!r}, the names "
+            f"bound by the construct print {inside!r} (an argument saw a sibling's binding)",
+            wit,
+        )
+
+
+# ======================================================================================
 # O6 : render ... for — iteration independence
 # ======================================================================================
 
@@ -1758,12 +1967,13 @@ def run_gen(rt: Rt, seed: str, j: int, tier: str) -> None:
 # ======================================================================================
 
 KINDS: dict[str, Callable[[Rt, str, int, str], None]] = {
-    "pairs": run_pair, "o4": run_o4, "frame": run_frame, "o6": run_o6, "gen": run_gen,
+    "pairs": run_pair, "o4": run_o4, "frame": run_frame, "o6": run_o6, "gen": run_gen, "args": run_args,
 }
 PER = {  # cases per shard (quick, thorough)
     "pairs": (260, 4000), "o4": (300, 6000), "frame": (150, 3000), "o6": (200, 4000), "gen": (80, 1600),
+    "args": (500, 10000),
 }
-NSHARDS = {"pairs": 8, "o4": 2, "frame": 3, "o6": 1, "gen": 1}
+NSHARDS = {"pairs": 8, "o4": 2, "frame": 3, "o6": 1, "gen": 1, "args": 1}
 
 
 def shards(tier: str, seed: int) -> list[dict[str, Any]]:
@@ -1807,6 +2017,9 @@ def floors(tier: str) -> dict[str, int]:
         "depth_sweep_raised": 100,
         "O4_probe_pairs": 1000 * k,
         "O6_order_pairs": 150 * k,
+        "O4args_probe_pairs": 1200 * k,
+        "O4args_sibling_name_arguments": 1000 * k,
+        "set:o4args_forms": len(ARG_FORMS),
         "set:o4_binders": 25,
         "set:constructs": 4,
         "set:wrappers": 8,
@@ -1886,6 +2099,13 @@ def replay(wit: dict[str, Any], ctx: Ctx) -> None:
             print(f"  probe pairs={n} mismatches={bad!r}")
             if bad:
                 ctx.violation(key, f"probe before {bad[0][1]!r} != probe after {bad[0][2]!r}", wit)
+        elif oracle == "O4args":
+            res = rt.run(env, wit["source"], data, mode, tglobals=tg)
+            print(f"  source {wit['source']!r}\n  -> ok={res.ok} err={res.err!r} out={res.out!r}")
+            n, bad = args_check(res.out) if res.ok else (0, [])
+            print(f"  probe pairs={n} mismatches={bad!r}")
+            if bad:
+                ctx.violation(key, f"arguments in the enclosing scope {bad[0][1]!r} != bound names {bad[0][2]!r}", wit)
         elif oracle == "O6":
             outs = []
             for arr in (wit["items"], wit["permuted"]):
